@@ -596,6 +596,11 @@ def argext(v, maximize):
     c.oblige("argext.nonempty", v.n >= 1, kind="side")
     ek = v.at(k)
     c.assume(z3.And(0 <= k, k < v.n))
+    # evaluate the elements at the indices already singled out on this path, so that the element-wise arithmetic facts (which are
+    # dropped inside quantifier bodies) are available there
+    for wit in list(c.witnesses):
+        if not wit.eq(k):
+            v.at(wit)
     # numpy: the first NaN if any, else the first extremum
     c.assume(z3.Implies(ek.nan, _forall(v, lambda j: z3.Implies(j < k, z3.Not(v.at(j).nan)))))
     cmp_ = (lambda a, b: a >= b) if maximize else (lambda a, b: a <= b)
